@@ -42,6 +42,7 @@ inductive Tok
   | co (ids : List Nat) (ok : Bool)
   | cr (c : Nat) (r : Res)
   | lk (n : Nat)
+  | to (c : Nat)   -- a cancelled call was still blocked when the watchdog expired
 deriving Repr, DecidableEq
 
 def parseNats (s : String) : Option (List Nat) :=
@@ -73,6 +74,7 @@ def parseTok (t : String) : Option Tok :=
   | ["co", ids, ok] => do some (.co (← parseNats ids) (ok == "ok"))
   | ["cr", c, r] => do some (.cr (← c.toNat?) (← parseRes r))
   | ["lk", n] => do some (.lk (← n.toNat?))
+  | ["to", c] => do some (.to (← c.toNat?))
   | _ => none
 
 def parseCfg (s : String) : Option Cfg := do
@@ -123,10 +125,12 @@ def obsEvents (s : State) : Tok → List Event
       | _ => none
   | .cr c r => if s.calls.any (fun x => x.id = c && x.phase = .left r) then [.ret c] else []
   | .lk _ => []
+  | .to _ => []
 
 def stepObs (cfg : Cfg) (ss : SS) (t : Tok) : SS :=
   match t with
   | .lk _ => ss
+  | .to _ => ss
   | _ =>
     let next := ss.fold (fun acc s => (obsEvents s t).foldl (fun acc e =>
       match step cfg s e with | some s' => s' :: acc | none => acc) acc) []
@@ -219,7 +223,7 @@ def holds (cfg : Cfg) (toks : List Tok) : Bool :=
         z.any fun y => y.2 < x.2 && (match y.1 with | .co ids true => ids.contains m | _ => false)
     | _ => true
   -- H6 census
-  let h6 := toks.all fun t => match t with | .lk n => n = 0 | _ => true
+  let h6 := toks.all fun t => match t with | .lk n => n = 0 | .to _ => false | _ => true
   h1 && h2 && h3 && h4 && h5 && h6
 
 end WMon
@@ -363,7 +367,7 @@ def holdsT (toks : List String) : Bool :=
 
 def simulateT (toks : List String) : String :=
   match simulate false toks with
-  | r => if r.startsWith "close=" then (r.drop ("close=none ".length)).toString else r
+  | r => if r.startsWith "close=" then ((r.drop ("close=none ".length)).toString.splitOn " ").headD "" else r
 
 end R
 
